@@ -258,8 +258,9 @@ func checkTemplate(c *Ctx, r *Report, format string, ti tmplInfo, spec map[strin
 }
 
 func checkC02(c *Ctx, r *Report) {
-	r.Rules = []string{"F3 template wiring (deb, ipk, apk)", "F4 rpm metadata wiring", "F5 archlinux key/value wiring", "F5b deb triggers / changelog extras", "D3 GOARCH tables vs documentation, override precedence", "F6 version slot depends on every configured component", "ipk reserved field names"}
+	r.Rules = []string{"F3 template wiring (deb, ipk, apk)", "F4 rpm metadata wiring", "F5 archlinux key/value wiring", "F5b deb triggers / changelog extras", "D3 GOARCH tables vs documentation, override precedence", "F6 version slot depends on every configured component", "ipk reserved field names", "F5b-text rpm changelog text is the rendered notes (TrimSpace only)", "F3-funcs template helper functions write through none of their list arguments", "F6-parsed no branch on the value of a parsed epoch/release"}
 	r.Explanation = "Wiring of control metadata decided from source. (F3) the deb, ipk and apk control templates — the string constants reaching Template.Parse — are parsed with text/template/parse (never executed) and flattened to label -> fields printed and fields guarding; each label must be fed from exactly the configuration field(s) the statement pairs it with (all relation kinds, identity fields, format extras), optional labels guarded by their own field. (F4) every field of the rpmpack.RPMMetaData literal and (F5) every key of the archlinux key/value writer must derive (field provenance over go/ssa) from exactly its configuration field(s). (F5b) deb trigger directives pair with the like-named trigger lists, the triggers member is written only when non-empty, changelog entries only behind a non-empty changelog setting. (D3) the five GOARCH tables are extracted from the package initialisers and every row of www/docs/goarch-to-pkg.md must hold in code; with a format-specific architecture configured the stored architecture is that value verbatim (abstract evaluation). (F6) with each version component in turn fixed non-empty, the string reaching the rpm Version field, the apk pkgver and the archlinux pkgver must depend on it on every live path. Rendering of concrete text (multi-line descriptions, escaping) is not decided."
+	r.Explanation += " (F5b-text) between the rendered changelog notes and rpm's changelog-text tag only strings.TrimSpace may sit. (F3-funcs) functions registered in the control templates' FuncMaps write through none of their list arguments. (F6-parsed) no branch depends on the value of an epoch/release parsed as an integer."
 	r.Assumptions = []string{
 		"text/template renders an action with the value of the field chain it names; join/multiline/nonEmpty helpers are not analysed for arbitrary text",
 		"rpmpack writes each RPMMetaData field under its like-named header tag",
@@ -432,6 +433,7 @@ func checkC02(c *Ctx, r *Report) {
 
 	checkTemplateFuncs(c, r)
 	checkParsedComponents(c, r, pa)
+	checkListLoopsComplete(c, r)
 	checkDebExtras(c, r, pa)
 	checkArchTables(c, r)
 	checkVersionMust(c, r)
@@ -1394,4 +1396,167 @@ func textChainBad(c *Ctx, v ssa.Value, allowed map[string]bool, depth int) strin
 		}
 	}
 	return "a chain too long to decide"
+}
+
+// checkListLoopsComplete (F-complete): a loop that turns a configured list
+// into metadata emits something for every element - "complete, in order,
+// without extras". An iteration may end without emitting only behind an
+// emptiness test of a string element (blank items are dropped everywhere);
+// any other skip (a de-duplication map, a test of an element's numeric
+// field) loses configured items. Applied to the rpm relation builder (the
+// loop around (*rpmpack.Relations).Set) and to the list-taking helper
+// functions of the control templates.
+func checkListLoopsComplete(c *Ctx, r *Report) {
+	n := 0
+	check := func(fn *ssa.Function, emit func(ssa.Instruction) bool, what string) {
+		// element loads of slice-typed parameters
+		for _, prm := range fn.Params {
+			if _, ok := prm.Type().Underlying().(*types.Slice); !ok {
+				continue
+			}
+			var elem *ssa.IndexAddr
+			forEachInstr(fn, func(in ssa.Instruction) {
+				if ia, ok := in.(*ssa.IndexAddr); ok && ia.X == ssa.Value(prm) && elem == nil {
+					if _, isConst := ia.Index.(*ssa.Const); !isConst {
+						elem = ia
+					}
+				}
+			})
+			if elem == nil {
+				continue
+			}
+			// the loop header: nearest dominator of the element load that the load can reach again
+			var header *ssa.BasicBlock
+			for d := elem.Block().Idom(); d != nil; d = d.Idom() {
+				if blockReaches(elem.Block(), d) {
+					header = d
+					break
+				}
+			}
+			if header == nil {
+				continue
+			}
+			n++
+			var emits []*ssa.BasicBlock
+			forEachInstr(fn, func(in ssa.Instruction) {
+				if emit(in) && (header.Dominates(in.Block())) {
+					emits = append(emits, in.Block())
+				}
+			})
+			var bad ssa.Instruction
+			for _, p := range header.Preds {
+				if !(header.Dominates(p) || p == header) {
+					continue // loop entry
+				}
+				covered := false
+				for _, e := range emits {
+					if e == p || e.Dominates(p) {
+						covered = true
+					}
+				}
+				if covered {
+					continue
+				}
+				// a skipping back edge: every test on the way from the element
+				// load must be an emptiness test of a string
+				for d := p; d != nil && d != header; d = d.Idom() {
+					id := d.Idom()
+					if id == nil {
+						break
+					}
+					ifi, ok := id.Instrs[len(id.Instrs)-1].(*ssa.If)
+					if !ok || !header.Dominates(id) || id == header {
+						continue
+					}
+					if !isStringEmptinessTest(ifi.Cond) && bad == nil {
+						bad = ifi
+					}
+				}
+			}
+			construct := fmt.Sprintf("%s: loop over %s emits every element", what, prm.Name())
+			if bad != nil {
+				r.Fail("F-complete", construct, c.instrPos(bad), "an iteration can end without emitting anything behind a test that is not an emptiness test of a string element: configured items would be missing from the metadata")
+			} else {
+				r.Pass("F-complete", construct, c.instrPos(elem), "every iteration emits, or skips only blank string items")
+			}
+		}
+	}
+	if pk := c.PackagerByFormat("rpm"); pk != nil {
+		for _, fn := range sortedFuncs(c, c.Reach(pk.Package)) {
+			isRel := false
+			forEachInstr(fn, func(in ssa.Instruction) {
+				if call, ok := in.(*ssa.Call); ok && calleeIs(call, rpmpackPath, "Relations", "Set") {
+					isRel = true
+				}
+			})
+			if isRel {
+				check(fn, func(in ssa.Instruction) bool {
+					call, ok := in.(*ssa.Call)
+					return ok && calleeIs(call, rpmpackPath, "Relations", "Set")
+				}, "rpm relations in "+c.funcKey(fn))
+			}
+		}
+	}
+	for fn := range funcMapFuncs(c) {
+		check(fn, func(in ssa.Instruction) bool {
+			call, ok := in.(*ssa.Call)
+			if !ok {
+				return false
+			}
+			if b, isB := call.Call.Value.(*ssa.Builtin); isB && b.Name() == "append" {
+				return true
+			}
+			if o := calleeObj(call); o != nil {
+				switch o.Name() {
+				case "WriteString", "Write", "WriteByte", "WriteRune", "Fprintf", "Fprint", "Fprintln":
+					return true
+				}
+			}
+			return false
+		}, "template helper "+c.funcKey(fn))
+	}
+	r.Floor("F-complete", n, 2)
+}
+
+func blockReaches(from, to *ssa.BasicBlock) bool {
+	seen := map[*ssa.BasicBlock]bool{}
+	stack := append([]*ssa.BasicBlock{}, from.Succs...)
+	for len(stack) > 0 {
+		b := stack[len(stack)-1]
+		stack = stack[:len(stack)-1]
+		if b == to {
+			return true
+		}
+		if seen[b] {
+			continue
+		}
+		seen[b] = true
+		stack = append(stack, b.Succs...)
+	}
+	return false
+}
+
+// isStringEmptinessTest: `s == ""` / `s != ""` / `len(s) == 0` for a string s.
+func isStringEmptinessTest(v ssa.Value) bool {
+	bo, ok := v.(*ssa.BinOp)
+	if !ok || (bo.Op != token.EQL && bo.Op != token.NEQ) {
+		return false
+	}
+	for _, pair := range [][2]ssa.Value{{bo.X, bo.Y}, {bo.Y, bo.X}} {
+		k, isK := pair[1].(*ssa.Const)
+		if !isK || k.Value == nil {
+			continue
+		}
+		if b, isB := pair[0].Type().Underlying().(*types.Basic); isB && b.Info()&types.IsString != 0 && constOrEmpty(k) == "" && k.Value.Kind().String() == "String" {
+			return true
+		}
+		if call, isC := pair[0].(*ssa.Call); isC {
+			if bi, isBi := call.Call.Value.(*ssa.Builtin); isBi && bi.Name() == "len" && k.Int64() == 0 {
+				if b, isB := call.Call.Args[0].Type().Underlying().(*types.Basic); isB && b.Info()&types.IsString != 0 {
+					return true
+				}
+			}
+		}
+	}
+	return false
 }
